@@ -7,6 +7,7 @@ RULE = ("Go maps over key/value lengths {0,1,2,5,254,255} incl. '=' ';' 0x00 0xF
         "ValuesToMapping: rotated insertion order) and compared with TLC's CanonicalSer; bytes parsed back; plus TLC-computed mapping byte "
         "strings (short final pairs, junk tails, unsorted, duplicate keys, size +-1) into ReadMapping/NewMapping and every cut point. "
         "Non-trivial = a C11 predicate's antecedent held.")
+RULE += (' Hash-collision, UTF-16-order and prefix key families; pair counts 999/1000/1001 (thorough); kept Data() results (Chain); re-serialisation after every query of the mapping.')
 ASSUME = [common.TRUSTED, "keys of a Go map are distinct, so model pair lists have distinct keys"]
 META = {
     "level": "model_checking",
